@@ -3,6 +3,7 @@ package main
 // Oracles C06–C12, C16: batch issuance, pricing, response window, lifecycle, cadence, scheduling, bookkeeping, cleanup.
 
 import (
+	"math/big"
 	"bytes"
 	"fmt"
 	"sort"
@@ -73,6 +74,9 @@ func stepVerb(r *StepRec) string {
 type eligibility struct {
 	must, may map[string]bool // hex provider
 	minTotal, maxTotal int64
+	// unpriced: a candidate publishes its price in a foreign token for which the feed has no usable rate; the batch
+	// cannot be priced and the statement says nothing about what then happens to it (C11 still demands progress)
+	unpriced bool
 }
 
 func (x *Exec) eligible(c *types.RequestContext, post *Snap) eligibility {
@@ -87,7 +91,14 @@ func (x *Exec) eligible(c *types.RequestContext, post *Snap) eligibility {
 		if err != nil {
 			continue
 		}
-		fees := hp.AcceptableFees(post.Time, x.tr.Vol[volKey(c.Consumer, c.ServiceName, p)])
+		fees := hp.AcceptableFees(post.Time, x.tr.Vol[volKey(c.Consumer, c.ServiceName, p)], post.Rates)
+		if fees == nil {
+			e.unpriced = true
+			continue
+		}
+		if hp.Foreign() {
+			x.stats.inc("probe_foreign_priced_candidate")
+		}
 		all, some := true, false
 		var lo, hi int64 = -1, -1
 		for f := range fees {
@@ -207,6 +218,10 @@ func oracleC06(x *Exec, r *StepRec) {
 			continue
 		}
 		e := x.eligible(pc, post)
+		if e.unpriced {
+			x.stats.inc("probe_unpriced_batch")
+			continue
+		}
 		thr := int(pc.ResponseThreshold)
 		if ci := x.tr.Ctxs[id]; ci != nil && ci.HasThreshold {
 			thr = int(ci.Threshold) // what the owning module last set successfully (ledger)
@@ -369,12 +384,21 @@ func oracleC07(x *Exec, r *StepRec) {
 		}
 		fee := q.ServiceFee[0].Amount
 		vol := x.tr.Vol[volKey(c.Consumer, c.ServiceName, q.Provider)]
-		acc := hp.AcceptableFees(post.Time, vol)
+		acc := hp.AcceptableFees(post.Time, vol, post.Rates)
+		if acc == nil {
+			continue // foreign pricing without a usable exchange rate: nothing to compare with
+		}
 		if !acc[fee.String()] {
 			x.viol("C07", "fee_value", fmt.Sprintf("height %d time %s: request %s to %s fee %s; published pricing %s with volume %d allows %v", post.Height, post.Time.Format("15:04:05.000000000"), rid[:12], bkShow(bkey(c.ServiceName, q.Provider)), fee, b.Pricing, vol, sortedKeys(acc)), origin)
 			return
 		}
 		base := hp.Base
+		if hp.Foreign() {
+			// in the base denomination: the base price at the published rate (rounded up: the bound is not a rounding rule)
+			conv := new(big.Rat).Mul(new(big.Rat).SetInt(hp.Base), rateFor(post.Rates, hp.Denom))
+			base = new(big.Int).Add(floorRat(conv), big.NewInt(1))
+			x.stats.inc("probe_foreign_priced_request")
+		}
 		if base.Sign() < 1 {
 			base = bigInt(1)
 		}
